@@ -381,8 +381,14 @@ CLEANUP:
 	/* free the last allocated basis, and if we wanted to save it, do so */
 	if (basis)
 	{
-		if (writebasis)
-			rval = mpq_QSwrite_basis (p_mpq, 0, writebasis);
+		/* write the basis the solver handed back; there is none to write when the
+		 * problem turned out infeasible or unbounded, which is not an error */
+		if (writebasis && p_mpq && basis->cstat && basis->rstat)
+		{
+			int wrval = mpq_QSwrite_basis (p_mpq, basis, writebasis);
+			if (!rval)
+				rval = wrval;
+		}
 	}
 	mpq_QSfree_basis (basis);
 	mpq_QSfree_prob (p_mpq);
